@@ -186,6 +186,17 @@ structure Ghost where
   blocked : List (String × Nat) := []
   /-- an error was reported by some operation (C06 speaks of error-free histories) -/
   errored : Bool := false
+  /-- lookups made on the open cache since the last clear, plus what was pending in the ring then -/
+  ringLookups : Nat := 0
+  /-- values written under a key before a remove() of that key that has returned -/
+  removedVals : List Nat := []
+  /-- the policy refused or evicted something, or an insert was dropped, in this life: capacity
+  pressure was felt, C04's premise no longer holds -/
+  pressure : Bool := false
+  /-- largest charge any insert asked for, per key, since the last clear (for C04's premise) -/
+  keyCharges : List (Nat × Int) := []
+  /-- deadline (created + ttl, 0 = none) of the last effective write per key -/
+  lastDeadline : List (Nat × Nat) := []
   /-- blocked wait() calls in the order their markers were enqueued (from the implementation's lines) -/
   waitFifo : List Nat := []
   /-- blocked clear()/close() calls in request order -/
@@ -207,6 +218,10 @@ def shouldUpdateOf (mode : Nat) (prev new : Nat) : Bool :=
 structure CacheSt where
   c : Option Cache := none
   g : Ghost := {}
+  /-- an insert parked after its closed-check: (call id, the `c.insert …` action it stands for, clock at begin) -/
+  parkedInsert : Option (Nat × String × Nat) := none
+  /-- the insert being replayed is the second half of a split insert: no closed-check -/
+  bodyOnly : Bool := false
 
 def residentVals (s : CSnap) : List Nat := s.items.map fun (_, _, v, _, _) => v
 
@@ -252,14 +267,14 @@ def monitorSnapshot (tl : Tally) (g : Ghost) (s : CSnap) (quiescentExtra : Bool)
         tl := tl.monitorAt "C17" s!"keys_added - keys_evicted = {u64 (ka - ke)} but {s.charges.length} entries are charged"
       if u64 (ca - ce) != u64 s.used then
         tl := tl.monitorAt "C17" s!"cost_added - cost_evicted = {u64 (ca - ce)} but used = {s.used}"
-    if hit + miss != g.lookups then
+    if !s.closed && hit + miss != g.lookups then
       tl := tl.monitorAt "C17" s!"hits + misses = {hit + miss} but {g.lookups} lookups were made on the open cache since the last clear"
-    if ds != g.dropsExpected then
+    if !s.closed && ds != g.dropsExpected then
       tl := tl.monitorAt "C17" s!"sets_dropped = {ds} but {g.dropsExpected} inserts of non-resident keys returned false for lack of buffer space"
-    if rs != g.rejectsExpected then
+    if !s.closed && rs != g.rejectsExpected then
       tl := tl.monitorAt "C17" s!"sets_rejected = {rs} but the policy made {g.rejectsExpected} popularity rejections"
-    if dg + kg != g.flushed then
-      tl := tl.monitorAt "C15" s!"gets_kept + gets_dropped = {dg + kg} but batches of total size {g.flushed} were flushed"
+    if !s.pclosed && dg + kg + s.ring.length != g.ringLookups then
+      tl := tl.monitorAt "C15" s!"gets_kept + gets_dropped + pending = {dg + kg} + {s.ring.length} but {g.ringLookups} lookups were recorded: a batch was accounted more or less than once"
   | _ => pure ()
   match s.life with
   | some (n, bs) => if n != bs.foldl (· + ·) 0 then
@@ -299,7 +314,7 @@ def sameItem (m : Item) (i : Item) : Bool :=
   | .wait _, .wait _ => true
   | a, b => a == b
 
-def stepCache (st : CacheSt) (tl : Tally) (act : String) (ans : String) : CacheSt × Tally :=
+partial def stepCache (st : CacheSt) (tl : Tally) (act : String) (ans : String) : CacheSt × Tally :=
   let a := splitWs act
   let r := kvs (splitWs ans)
   let g := st.g
@@ -332,7 +347,9 @@ def stepCache (st : CacheSt) (tl : Tally) (act : String) (ans : String) : CacheS
       match k.toNat?, cf.toNat?, v.toNat?, cost.toInt?, ttl.toNat?, coster.toInt?, only.toNat? with
       | some k, some cf, some v, some cost, some ttl, some coster, some only =>
         let only := only == 1
-        let (c', ret) := c.insert su k cf v cost ttl now coster only
+        let (c', ret) := if st.bodyOnly then c.insertBody su k cf v cost ttl now coster only
+          else c.insert su k cf v cost ttl now coster only
+        let tl := if st.bodyOnly then tl.bump (if c.closed then "insert.split.closed_meanwhile" else "insert.split") else tl
         let retI := retS == "1"
         let before := g.prev.bind (fun s => findItem s k)
         -- coverage
@@ -386,6 +403,14 @@ def stepCache (st : CacheSt) (tl : Tally) (act : String) (ans : String) : CacheS
         let g := if retI && !vetoed && quiescentBefore then
             { g with lastWrite := ((k, cf), v) :: g.lastWrite.filter (·.1.1 != k) }
           else if retI then { g with lastWrite := g.lastWrite.filter (·.1.1 != k) } else g
+        let g := if retI && !vetoed then
+            { g with lastDeadline := (k, if ttl == 0 then 0 else now + ttl) :: g.lastDeadline.filter (·.1 != k) } else g
+        let wanted := c.internalCost (if cost == 0 then coster else cost)
+        let prevMax := ((g.keyCharges.find? (·.1 == k)).map (·.2)).getD 0
+        let g := if !only || before.isSome then
+            { g with keyCharges := (k, if wanted > prevMax then wanted else prevMax) :: g.keyCharges.filter (·.1 != k) } else g
+        -- C04's premise: the combined cost of everything ever asked for since the last clear fits
+        let g := if sumCosts g.keyCharges > snap.max || (!retI && !only) then { g with pressure := true } else g
         let dropped := !retI && !only && !c.closed && retS == "0"
         let wasUpdatePath := match before with
           | some (_, bcf, _, _, _) => (cf == 0 || cf == bcf) && !vetoed
@@ -395,6 +420,28 @@ def stepCache (st : CacheSt) (tl : Tally) (act : String) (ans : String) : CacheS
         let tl := if ret == retI then tl else tl.divergeAt "c.insert.ret" (toString ret) retS
         finishStep st tl c' "c.insert" (newCbs c c') cbsImpl snap g
       | _, _, _, _, _, _, _ => (st, tl.badAt act)
+    | ["c.insert.begin", id, k, cf, v, cost, ttl, coster, only] =>
+      match id.toNat? with
+      | some id =>
+        if c.closed then
+          -- the closed-check fails: the call returns false at once
+          let tl := tl.bump "insert.begin.closed"
+          let tl := if retS == "0" then tl else tl.divergeAt "c.insert.begin.ret" "0" retS
+          finishStep st tl c "c.insert.begin" [] cbsImpl snap g
+        else
+          let tl := tl.bump "insert.begin.parked"
+          let tl := if retS == "parked" then tl else tl.divergeAt "c.insert.begin.ret" "parked" retS
+          let st := { st with parkedInsert := some (id, s!"c.insert {k} {cf} {v} {cost} {ttl} {coster} {only}", now) }
+          finishStep st tl c "c.insert.begin" [] cbsImpl snap g
+      | none => (st, tl.badAt act)
+    | ["c.insert.finish", _id] =>
+      match st.parkedInsert with
+      | some (_, act', now0) =>
+        -- replay the body with the clock value the call read when it began
+        let st1 := { st with parkedInsert := none, bodyOnly := true, g := { g with now := now0 } }
+        let (st2, tl) := stepCache st1 tl act' ans
+        ({ st2 with bodyOnly := false, g := { st2.g with now := g.now } }, tl)
+      | none => (st, tl.divergeAt "c.insert.finish" "no insert is parked" retS)
     | ["c.get", k, cf] =>
       match k.toNat?, cf.toNat? with
       | some k, some cf =>
@@ -430,8 +477,25 @@ def stepCache (st : CacheSt) (tl : Tally) (act : String) (ans : String) : CacheS
               | _, _ => tl
             else tl
           | none => tl
-        let g := if c.closed then g else { g with lookups := g.lookups + 1 }
+        let wasOpen := !((g.prev.map (·.closed)).getD false)
+        let g := if wasOpen then { g with lookups := g.lookups + 1, ringLookups := g.ringLookups + 1 } else g
         let g := if c'.ring.isEmpty && !c.closed && !c.policyClosed then { g with flushed := g.flushed + c.ring.length + 1 } else g
+        let quiescentNow := (g.prev.map (·.buf == 0)).getD true && g.blocked.isEmpty
+        -- C02: at quiescence nothing written before a completed remove() of the key is served
+        let tl := match retI with
+          | some v => if quiescentNow && g.removedVals.contains v then
+              tl.monitorAt "C02" s!"quiescent get({k},{cf}) returned value {v}, written before a remove() of that key that had returned" else tl
+          | none => tl
+        -- C04: below capacity nothing is lost: the last effective write is retrievable until removed, cleared or expired
+        let tl := match g.lastWrite.find? (·.1 == (k, cf)) with
+          | some (_, lw) =>
+            let dl := ((g.lastDeadline.find? (·.1 == k)).map (·.2)).getD 0
+            -- keys colliding on the index hash are outside C04's premise (one of them is refused by design)
+            let collides := ((g.origin.filter (fun (_, ok, _) => ok == k)).map (·.2.2)).eraseDups.length > 1
+            if quiescentNow && !g.pressure && !collides && wasOpen && (dl == 0 || now < dl) && retI != some lw then
+              tl.monitorAt "C04" s!"quiescent get({k},{cf}) = {retS} but value {lw} was accepted for it, nothing removed, cleared or expired it and no capacity pressure occurred"
+            else tl
+          | none => tl
         let tl := if ret == retI && (retS == "none" || retI.isSome) then tl else tl.divergeAt "c.get.ret" (toString ret) retS
         finishStep st tl c' "c.get" (newCbs c c') cbsImpl snap g
       | _, _ => (st, tl.badAt act)
@@ -449,7 +513,7 @@ def stepCache (st : CacheSt) (tl : Tally) (act : String) (ans : String) : CacheS
             | some (_, ok, _) => if ok == k then tl else tl.monitorAt "C02" s!"get_mut({k},{cf}) returned value {old} written under key {ok}"
             | none => tl
           | none => tl
-        let g := if c.closed then g else { g with lookups := g.lookups + 1 }
+        let g := if !((g.prev.map (·.closed)).getD false) then { g with lookups := g.lookups + 1, ringLookups := g.ringLookups + 1 } else g
         let g := if c'.ring.isEmpty && !c.closed && !c.policyClosed then { g with flushed := g.flushed + c.ring.length + 1 } else g
         let g := match retI with
           | some old => { g with origin := (v, k, cf) :: g.origin, written := v :: g.written, dropped := old :: g.dropped,
@@ -489,6 +553,10 @@ def stepCache (st : CacheSt) (tl : Tally) (act : String) (ans : String) : CacheS
         let expect := if blocked then "blocked" else "ok"
         let tl := if retS == expect then tl else tl.divergeAt "c.remove.ret" expect retS
         let g := if retS == "blocked" then { g with blocked := ("remove", id) :: g.blocked } else g
+        -- values written under this key so far are dead once this remove has taken effect
+        let mine := (g.origin.filter fun (_, ok, ocf) => ok == k && (cf == 0 || ocf == cf || ocf == 0)).map (·.1)
+        let g := if !((g.prev.map (·.closed)).getD false) then
+            { g with removedVals := mine ++ g.removedVals, lastWrite := g.lastWrite.filter (·.1.1 != k) } else g
         finishStep st tl c' "c.remove" (newCbs c c') cbsImpl snap g
       | _, _, _ => (st, tl.badAt act)
     | ["c.wait", id] =>
@@ -565,7 +633,8 @@ def stepCache (st : CacheSt) (tl : Tally) (act : String) (ans : String) : CacheS
       | none => (st, tl.badAt act)
     | ["c.maxcost", mc] =>
       match mc.toInt? with
-      | some mc => finishStep st (tl.bump "maxcost") (c.updateMaxCost mc) "c.maxcost" [] cbsImpl snap g
+      | some mc => finishStep st (tl.bump "maxcost") (c.updateMaxCost mc) "c.maxcost" [] cbsImpl snap
+          (if sumCosts g.keyCharges > mc then { g with pressure := true } else g)
       | none => (st, tl.badAt act)
     | ["c.len"] =>
       let tl := tl.bump "len"
@@ -655,6 +724,7 @@ def stepCache (st : CacheSt) (tl : Tally) (act : String) (ans : String) : CacheS
         -- resident values are dropped without callback by clear
         let g := { g with dropped := (g.prev.map residentVals).getD [] ++ g.dropped,
                           lookups := 0, dropsExpected := 0, rejectsExpected := 0, flushed := 0, lastWrite := [],
+                          ringLookups := snap.ring.length, lastDeadline := [], keyCharges := [], pressure := false,
                           releasedG := g.waitFifo ++ g.clearFifo.take 1 ++ g.releasedG, waitFifo := [],
                           clearFifo := g.clearFifo.drop 1 }
         finishStep st tl c' "p.clear" (newCbs c c') cbsImpl snap g
